@@ -88,7 +88,7 @@ reg(
 
 reg(
     "C03",
-    "Finite-domain exhaustion: every access matrix over a small entry set x every bounds vector from {1,2,3,4,6,8} for 1-3 operands and 1-3 iteration dims, "
+    "Finite-domain exhaustion: every access matrix over a small entry set x every bounds vector from {1,2,3,4,5,6,8} for 1-3 operands and 1-3 iteration dims, "
     "matmul maps under all dimension permutations with single-entry perturbations, against nine templates (bounded, unbounded, tiled, matmul, broadcast-row, "
     "rank-mismatched) and subsets of the extra checks; for EVERY schedule yielded by the real scheduler_backtrack the multiset of operand-index tuples over "
     "the whole iteration box must equal the original's, a harness-side wrapper asserts that the scheduler only ever tiles dividing bounds, and each elementary "
